@@ -12,8 +12,8 @@ theorem update_nil {α : Type} (f : List α) : update f [] = f := rfl
 theorem stepOpt_some (fo : Option FixOnly) (post : List Tok → List Tok) (g : List Tok) (b : Bool) (r : Rule) :
     stepOpt fo post (g, b) (some r) =
       if r.1.sevError && r.1.fixable then
-        (update g ((filterFixOnly fo r.1.id (r.2.analyze g)).map (editOf r.2)),
-          b || !(filterFixOnly fo r.1.id (r.2.analyze g)).isEmpty)
+        (update g ((filterFixOnly fo r.1.id (sortByStart (r.2.analyze g))).map (editOf r.2)),
+          b || !(filterFixOnly fo r.1.id (sortByStart (r.2.analyze g))).isEmpty)
       else (g, b) := by
   unfold stepOpt stepRule ruleFix
   by_cases h1 : r.1.sevError = true
@@ -25,13 +25,13 @@ theorem stepOpt_some (fo : Option FixOnly) (post : List Tok → List Tok) (g : L
     simp [this]
 
 theorem ruleFix_fst (r : Rule) (fo : Option FixOnly) (g : List Tok) (h : r.1.fixable = true) :
-    (ruleFix r.1 r.2 fo g).1 = update g ((filterFixOnly fo r.1.id (r.2.analyze g)).map (editOf r.2)) := by
+    (ruleFix r.1 r.2 fo g).1 = update g ((filterFixOnly fo r.1.id (sortByStart (r.2.analyze g))).map (editOf r.2)) := by
   simp [ruleFix, h]
 
 theorem mem_traceFrom (fo : Option FixOnly) (post : List Tok → List Tok) (l : List (Option Rule)) (g : List Tok)
     (ev : FixEv) (h : ev ∈ traceFrom fo post l g) :
     some ev.rule ∈ l ∧ ev.rule.1.sevError = true ∧ ev.rule.1.fixable = true ∧
-      ev.fixed = filterFixOnly fo ev.rule.1.id (ev.rule.2.analyze ev.seen) := by
+      ev.fixed = filterFixOnly fo ev.rule.1.id (sortByStart (ev.rule.2.analyze ev.seen)) := by
   induction l generalizing g with
   | nil => simp [traceFrom] at h
   | cons o l ih =>
